@@ -45,7 +45,7 @@ class Case:
             os.makedirs(outdir)
         e = dict(os.environ)
         e.update(env)
-        stdout_path = self.dir + "/stdout_%s.bin" % tag
+        stdout_path = self.dir + "/stdout_%s_%s.bin" % (self.name, tag)          # cases share directories and run in parallel
         try:
             with open(stdout_path, "wb") as so:
                 p = subprocess.run([tools + "/" + self.tool] + args, input=self.stdin, stdout=so, stderr=subprocess.PIPE,
